@@ -1,2 +1,62 @@
-(* C01 - placeholder until Proofs/Pratt.v lands in this commit series: see below *)
-From TW Require Import Bytes.
+(* C01 - expressions follow the precedence table, left associativity and typed arithmetic.
+   Proved here (semantic half): for EVERY specification expression, environment and sufficient
+   fuel, the evaluator model (mirror of evaluator.go) applied to the expression's AST gives exactly
+   the value of the specification semantics - wrapping 64-bit integers, IEEE-754 binary64 (Flocq),
+   byte strings, same-type rule; an error for mixed operand types, division and modulo by zero and
+   unknown identifiers - and Go's binding-power table, regenerated from parser.go on every run, is a
+   strictly monotone image of the property's precedence levels with every operator on its level;
+   the call-site precedences of parseExpression (right operand at the operator's own level, ternary
+   branches, assignment value at LOWEST) are pinned by Proofs/GenTie.v.
+   Decided by the check on generated instances (syntactic half, not a theorem yet): the printer's
+   output for a tree - any layout of blanks, newlines, redundant parentheses - is parsed back to
+   that tree by the lexer + Pratt parser (model = implementation on every case; implementation
+   output = text of the specification value). *)
+From Coq Require Import String.
+From TW Require Import Bytes Floats Values Ast GenToken GenParser Lexer Parser Builtins Eval Expr ExprSem GenTie.
+Open Scope N_scope.
+
+Theorem C01_model_evaluates_like_the_specification env e fs :
+  lits_ok e -> (size e <= fs)%nat ->
+  exists n, forall fm, (n <= fm)%nat ->
+    meets (eval_expr cx0 fm [env] (compile e)) (sem model_call_spec fs env e).
+Proof. exact (model_evaluates_like_the_specification env e fs). Qed.
+Print Assumptions C01_model_evaluates_like_the_specification.
+
+Theorem C01_binary_operators_are_typed ln o a b : meets (eval_infix_op ln (op_sym o) a b) (sem_bin o a b).
+Proof. exact (infix_meets ln o a b). Qed.
+Print Assumptions C01_binary_operators_are_typed.
+
+Theorem C01_binding_powers_follow_the_levels :
+  forallb (fun a => forallb (fun b => Bool.eqb (Nat.ltb (lnum a) (lnum b)) (Nat.ltb (level_code a) (level_code b)))
+                            all_levels) all_levels = true.
+Proof. exact level_code_monotone. Qed.
+Print Assumptions C01_binding_powers_follow_the_levels.
+
+Theorem C01_every_operator_is_on_its_level :
+  forallb (fun o => Nat.eqb (precOf (binop_tok o)) (level_code (op_level o))) all_binops = true /\
+  precOf T_QUESTION = level_code LTernary /\ precOf T_DOT = level_code LMember /\
+  precOf T_LBRACKET = level_code LIndex /\ precOf T_INC = level_code LPostfix /\ precOf T_DEC = level_code LPostfix /\
+  (P_LOWEST < level_code LTernary)%nat.
+Proof. exact operator_precedences_follow_levels. Qed.
+Print Assumptions C01_every_operator_is_on_its_level.
+
+(* right operand at the operator's own precedence, ternary consequence at TERNARY and alternative at
+   LOWEST (right nesting), prefix operand at PREFIX, assignment value as a complete expression *)
+Theorem C01_operand_precedences_in_the_source : parse_expression_sites = model_sites.
+Proof. exact call_site_precedences_tied. Qed.
+Print Assumptions C01_operand_precedences_in_the_source.
+
+(* an integer literal above MaxInt64 is a parse error, not a value *)
+Theorem C01_out_of_range_literal_is_rejected lit :
+  (max_int64 < dec_value 0%Z lit)%Z -> parseInt lit = None.
+Proof.
+  intro H. unfold parseInt. destruct (dec_value 0 lit <=? max_int64)%Z eqn:E; [|reflexivity].
+  apply Z.leb_le in E. exfalso. apply (Z.lt_irrefl max_int64). eapply Z.lt_le_trans; eassumption.
+Qed.
+Print Assumptions C01_out_of_range_literal_is_rejected.
+
+Example C01_example :
+  sem model_call_spec 10 [] (XBin BMul (XBin BDiv (XInt 8) (XInt 2)) (XInt 2)) = SVal (VInt 8) /\
+  eval_expr cx0 10 [[]] (compile (XBin BMul (XBin BDiv (XInt 8) (XInt 2)) (XInt 2))) = Ok (VInt 8) /\
+  lits_ok (XBin BAdd (XFloat 15 1) (XInt 3)).
+Proof. exact sem_example. Qed.
